@@ -722,6 +722,8 @@ def c02(tier):
             return set()
         if "nc_d-400.20a" in S and "nc_d-400.20b" in S:
             S["nc_d-400.20a_plus_20b"] = S["nc_d-400.20a"] + S["nc_d-400.20b"]      # the two halves of "N.C. income tax withheld"
+        if "1040.4a" in S and "1040.4b" in S:
+            S["1040.4a_plus_4b"] = S["1040.4a"] + S["1040.4b"]      # total and taxable part of the IRA distributions: see the "ira4" rule
         absent = set()
         pending = []
         forms_present = set(n.split(".")[0] for n in values)
@@ -759,6 +761,15 @@ def c02(tier):
                                     args.append(a)
                     args = sorted(args)
                     op = "add"
+                if op == "ira4":
+                    # every Form 1099-R copy with the IRA/SEP/SIMPLE box checked, whoever owns it, plus the taxable amounts of the Forms 8606 filed
+                    args = sorted("%s.box_1" % n.split(".")[0] for n in values if n.split(".")[0].split(":")[0] == "1099-r" and
+                                  n.split(".", 1)[1] == "box_7_ira_sep_simple" and values[n].strip().lower() in ("true", "yes", "1") and
+                                  "%s.box_1" % n.split(".")[0] in S)
+                    args += sorted(n for n in S if n.split(".")[0].split(":")[0] == "8606" and n.split(".", 1)[1] == "taxable_amount")
+                    op = "add"
+                    if not args:
+                        continue
                 if op == "addprefix":
                     args = sorted(n for n in S if n.startswith("%s.%s" % (finst, e["prefix"])))
                     op = "add"
